@@ -19,11 +19,13 @@ namespace GeographicLib {
 
   void GARS::Forward(real lat, real lon, int prec, string& gars) {
     using std::isnan;           // Needed for Centos 7, ubuntu 14
+    using std::isinf;
     if (fabs(lat) > Math::qd)
       throw GeographicErr("Latitude " + Utility::str(lat)
                           + "d not in [-" + to_string(Math::qd)
                           + "d, " + to_string(Math::qd) + "d]");
-    if (isnan(lat) || isnan(lon)) {
+    // lon = +/-inf is normalized to a nan
+    if (isnan(lat) || isnan(lon) || isinf(lon)) {
       gars = "INVALID";
       return;
     }
